@@ -49,11 +49,12 @@ type C12Line struct {
 	Out1      string   `json:"out1"`
 	Exp2      string   `json:"exp2"`
 	Out2      string   `json:"out2"`
+	PosBad    string   `json:"posbad"` // first syntactic position (direct or after a re-printing rewrite) at which the literal did not evaluate to the string
 	Panic     string   `json:"panic"`
 	Desc      string   `json:"desc"`
 }
 
-var sVariants = []string{" ", "\n", "é", "😀", "\t", "\u0001"}
+var sVariants = []string{" ", "\n", "é", "😀", "\t", "\u0001", "%", "%s", "{0}"} // the last three: characters with a meaning to formatting routines
 
 func classChar(c string, variant int) string {
 	switch c {
@@ -275,6 +276,53 @@ func c12Scan(args []string) error {
 						o3, p3 := safeTemplate(env, ctx, rew)
 						if p3 == "" && o3 != lit && line.Out1 == s {
 							line.Out1 = "after a re-printing rewrite: " + o3 // reported through LiteralOK
+						}
+					}()
+				}
+				// ... wherever the literal stands in an expression: operand of an operator, inside parentheses, argument of a
+				// function, item of an array, property of an object, branch of a conditional - evaluated as written and after
+				// a rewrite that re-prints the expression from its tree. (Positions in which ANOTHER quoted literal follows
+				// are left out for strings ending in a backslash: the lexer finding recorded under NeighbourOK.)
+				ql := strconv.Quote(s)
+				dflt := s
+				if s == "" {
+					dflt = "d"
+				}
+				type pos struct{ name, tpl, want string }
+				positions := []pos{
+					{"right-of-&", `@("" & ` + ql + `)`, s}, {"parenthesised", "@((" + ql + "))", s}, {"argument", "@(text(" + ql + "))", s},
+					{"array-item", "@(array(1, " + ql + ")[1])", s}, {"object-property", `@(object("k", ` + ql + `).k)`, s},
+					{"branch", "@(if(1 = 1, " + ql + ", 0))", s}, {"nested-argument", "@(text(default(" + ql + ", 0)))", map[bool]string{true: "0", false: s}[s == ""]},
+				}
+				if !strings.HasSuffix(s, `\`) {
+					positions = append(positions, pos{"left-of-&", "@(" + ql + ` & "")`, s}, pos{"both-sides-of-&", "@(" + ql + " & " + ql + ")", s + s},
+						pos{"compared", "@(if(" + ql + " = " + ql + ", " + ql + `, "ne"))`, s}, pos{"default", "@(default(" + ql + `, "d"))`, dflt})
+				}
+				for _, ps := range positions {
+					if line.PosBad != "" {
+						break
+					}
+					o, pn := safeTemplate(env, ctx, ps.tpl)
+					if pn != "" {
+						line.Panic = pn
+						break
+					}
+					if o != ps.want {
+						line.PosBad = ps.name + ": " + ps.tpl + " -> " + o
+						break
+					}
+					func() {
+						defer func() {
+							if r := recover(); r != nil && line.Panic == "" {
+								line.Panic = fmt.Sprintf("rewrite: %v", r)
+							}
+						}()
+						rew, rerr := refactor.Template(ps.tpl, []string{"a"}, func(excellent.Expression) bool { return true })
+						if rerr != nil {
+							return
+						}
+						if o2, p2 := safeTemplate(env, ctx, rew); p2 == "" && o2 != ps.want {
+							line.PosBad = ps.name + " after a re-printing rewrite: " + rew + " -> " + o2
 						}
 					}()
 				}
